@@ -111,6 +111,27 @@ def write_training_file(path, passwords, encoding='utf-8', newline='\n'):
     return path
 
 
+def write_counted_file(path, entries, encoding='utf-8', newline='\n', pad=0):
+    """[(password, count)] in `sort | uniq -c` layout (count right-aligned in `pad` columns, one space, the password):
+    the --prefixcount spelling of the list that write_training_file writes expanded."""
+    with open(path, 'wb') as f:
+        for p, c in entries:
+            f.write(str(c).rjust(pad).encode('ascii') + b' ' + p.encode(encoding) + newline.encode('ascii'))
+    return path
+
+
+SPELLINGS = ['plain', 'plain', 'prefix', 'prefix_padded']
+
+
+def write_list(path, entries, encoding='utf-8', spelling='plain'):
+    """Writes [(password, count)] expanded ('plain') or in --prefixcount spelling; returns the prefixcount flag to train with."""
+    if spelling == 'plain':
+        write_training_file(path, [p for p, c in entries for _ in range(c)], encoding)
+        return False
+    write_counted_file(path, entries, encoding, pad=7 if spelling == 'prefix_padded' else 0)
+    return True
+
+
 def new_parser(threshold=5, min_len=4, max_len=21):
     """A fresh real MultiWordDetector + PCFGPasswordParser."""
     from lib_trainer.detection_rules.multiword_detector import MultiWordDetector
